@@ -1008,7 +1008,7 @@ def plan(ctx: Ctx) -> List[Dict[str, Any]]:
              sample=25000),
         dict(name="nesting<=6", actions=6, depth=3, fields=0, kinds=[], blocks=["para", "list", "lit", "doctest"], free=False,
              sample=20000),
-        dict(name="rst-consolidated<=4", actions=4, depth=2, fields=3, kinds=CONS_KINDS + ["note"], blocks=["para", "list", "lit", "doctest", "code"],
+        dict(name="rst-consolidated<=4", actions=4, depth=2, fields=2, kinds=CONS_KINDS + ["note"], blocks=["para", "list", "lit", "doctest", "code"],
              free=False, sample=30000, forms=["plain", "cbullet", "cdef"], formats=["restructuredtext"]),
     ]
 
